@@ -1,24 +1,25 @@
 (* Conversions between the extracted Coq number types and OCaml values (zarith used for
    decimal parsing / printing only). *)
+module ZA = Z   (* zarith, before the extracted Coq module Z can shadow it *)
 open Model
 
-let rec pos_of_z (z : Z.t) : positive =
-  if Z.equal z Z.one then XH
-  else if Z.is_even z then XO (pos_of_z (Z.shift_right z 1))
-  else XI (pos_of_z (Z.shift_right z 1))
+let rec pos_of_z (z : ZA.t) : positive =
+  if ZA.equal z ZA.one then XH
+  else if ZA.is_even z then XO (pos_of_z (ZA.shift_right z 1))
+  else XI (pos_of_z (ZA.shift_right z 1))
 
-let n_of_z (z : Z.t) : n = if Z.sign z = 0 then N0 else Npos (pos_of_z z)
-let n_of_string s = n_of_z (Z.of_string s)
-let n_of_int i = n_of_z (Z.of_int i)
+let n_of_z (z : ZA.t) : n = if ZA.sign z = 0 then N0 else Npos (pos_of_z z)
+let n_of_string s = n_of_z (ZA.of_string s)
+let n_of_int i = n_of_z (ZA.of_int i)
 
 let rec z_of_pos = function
-  | XH -> Z.one
-  | XO p -> Z.shift_left (z_of_pos p) 1
-  | XI p -> Z.succ (Z.shift_left (z_of_pos p) 1)
+  | XH -> ZA.one
+  | XO p -> ZA.shift_left (z_of_pos p) 1
+  | XI p -> ZA.succ (ZA.shift_left (z_of_pos p) 1)
 
-let z_of_n = function N0 -> Z.zero | Npos p -> z_of_pos p
-let string_of_n x = Z.to_string (z_of_n x)
-let int_of_n x = Z.to_int (z_of_n x)
+let z_of_n = function N0 -> ZA.zero | Npos p -> z_of_pos p
+let string_of_n x = ZA.to_string (z_of_n x)
+let int_of_n x = ZA.to_int (z_of_n x)
 
 let rec nat_of_int i = if i <= 0 then O else S (nat_of_int (i - 1))
 let int_of_nat n = let rec go acc = function O -> acc | S m -> go (acc + 1) m in go 0 n
@@ -29,3 +30,7 @@ let bytes_of_hex (s : string) : n list =
 
 let hex_of_bytes (l : n list) : string =
   if l = [] then "-" else String.concat "" (List.map (fun b -> Printf.sprintf "%02x" (int_of_n b)) l)
+
+let z_of_coqz = function Z0 -> ZA.zero | Zpos p -> z_of_pos p | Zneg p -> ZA.neg (z_of_pos p)
+let string_of_coqz z = ZA.to_string (z_of_coqz z)
+let coqz_of_z (z : ZA.t) = if ZA.sign z = 0 then Z0 else if ZA.sign z > 0 then Zpos (pos_of_z z) else Zneg (pos_of_z (ZA.neg z))
